@@ -134,7 +134,13 @@ Section K.
       unscaled evaporation components e1 e2 e3 e5 *)
   Record sac_land_r := { l_v : sac_inner; l_uztwc : T; l_e1 : T; l_e2 : T; l_e3 : T; l_e5 : T }.
 
-  Definition sac_land (p : sac_par) (st : sac_st) (io : T * T) : sac_land_r :=
+  (** land phase before the drainage-and-percolation loop: evaporation, transfer of free to
+      tension water, resupply of the lower zone, filling of the upper tension store.
+      [pr_v0] = loop variables at loop entry, [pr_pav] = excess rain entering the loop *)
+  Record sac_pre_r := { pr_v0 : sac_inner; pr_uztwc : T; pr_pav : T;
+                        pr_e1 : T; pr_e2 : T; pr_e3 : T; pr_e5 : T }.
+
+  Definition sac_pre (p : sac_par) (st : sac_st) (io : T * T) : sac_pre_r :=
     let '(pliq, evapt) := io in
     let saved := rserv p * (lzfpm p + lzfsm p) in
     let alzfsm := lzfsm p * (one + side p) in
@@ -179,17 +185,24 @@ Section K.
     let '(adimc2, uztwc3, pav) :=
       if pav0 <? zero then (adimc1 + pliq, uztwc2 + pliq, zero)
       else (adimc1 + uztwm p - uztwc2, uztwm p, pav0) in
-    (* number of increments *)
+    {| pr_v0 := {| i_adimc := adimc2; i_alzfpc := alzfpc2; i_alzfsc := alzfsc2; i_flobf := zero;
+                   i_uzfwc := uzfwc2; i_floin := zero; i_lztwc := lztwc2; i_flosf := zero;
+                   i_roimp := roimp0 |};
+       pr_uztwc := uztwc3; pr_pav := pav; pr_e1 := e1; pr_e2 := e2; pr_e3 := e3; pr_e5 := e5 |}.
+
+  (** the loop: one pass when pav <= pdn20, two passes otherwise *)
+  Definition sac_loop (p : sac_par) (uztwc3 pav : T) (v0 : sac_inner) : sac_inner :=
     let '(adj, itime) :=
       if pav <=? pdn20 then (one, 2%Z)
       else ((if pav <? pdnor then of_q 1 2 * asqrt (pav / pdnor) else one - half_pdnor / pav), 1%Z) in
-    let v0 := {| i_adimc := adimc2; i_alzfpc := alzfpc2; i_alzfsc := alzfsc2; i_flobf := zero;
-                 i_uzfwc := uzfwc2; i_floin := zero; i_lztwc := lztwc2; i_flosf := zero;
-                 i_roimp := roimp0 |} in
-    let v := if (itime =? 1)%Z
-             then sac_pass p uztwc3 (one - adj) zero (sac_pass p uztwc3 adj pav v0)
-             else sac_pass p uztwc3 adj pav v0 in
-    {| l_v := v; l_uztwc := uztwc3; l_e1 := e1; l_e2 := e2; l_e3 := e3; l_e5 := e5 |}.
+    if (itime =? 1)%Z
+    then sac_pass p uztwc3 (one - adj) zero (sac_pass p uztwc3 adj pav v0)
+    else sac_pass p uztwc3 adj pav v0.
+
+  Definition sac_land (p : sac_par) (st : sac_st) (io : T * T) : sac_land_r :=
+    let pre := sac_pre p st io in
+    {| l_v := sac_loop p (pr_uztwc pre) (pr_pav pre) (pr_v0 pre); l_uztwc := pr_uztwc pre;
+       l_e1 := pr_e1 pre; l_e2 := pr_e2 pre; l_e3 := pr_e3 pre; l_e5 := pr_e5 pre |}.
 
   (** channel phase: area scaling of the flow components, unit hydrograph,
       channel losses.  [c_qf] = runoff, [c_bf] = baseflow part of it. *)
